@@ -34,7 +34,7 @@ import XotModel.Model.FspecSpec4
 import XotModel.Lemmas.FspecAllUnwrap
 import XotModel.Lemmas.FspecAllNormal
 import XotModel.Lemmas.FspecAllRepl6
-import XotModel.Lemmas.FspecAllFrame
+import XotModel.Lemmas.FspecAllFrame2
 
 namespace XotModel.Props
 open XotModel XotModel.Spec
@@ -984,6 +984,11 @@ theorem C05_specRemoveP_eq_specRemove_on_normal {f : Forest} {n : Nat} {t : HTre
     (hg : f.get? n = some t) :
     specRemoveP n f = specRemove Keep.earlier n f ∧ specRemoveP n f = specRemove (Keep.resident n) n f :=
   ⟨specRemoveP_eq_specRemove inv norm (Keep.earlier_spec n) hg, specRemoveP_eq_specRemove inv norm (Keep.resident_spec n) hg⟩
+
+/-- … and for `detach`. -/
+theorem C05_specDetachP_eq_specDetach_on_normal {f : Forest} {n : Nat} {t : HTree} (inv : f.Inv) (norm : f.Normal)
+    (hg : f.get? n = some t) : specDetachP n f = specDetach Keep.earlier n f :=
+  specDetachP_eq_specDetach inv norm (Keep.earlier_spec n) hg
 
 /-- Non-vacuity: `<a>x<b/>y</a><c>z</c>` (no adjacent text), `b` moved behind `z`: both readings
     give `<a>xy</a><c>z<b/></c>`. -/
